@@ -161,6 +161,8 @@ impl Check for C01 {
                         None => {
                             if r["cls"] == json!("late-throw") && has_missing_proto_method(src) {
                                 "behaviour-differs:missing-proto-method-late-throw".to_string()
+                            } else if has_super_key_in_super_call(src) {
+                                "behaviour-differs:super-key-before-this-check".to_string()
                             } else if r["cls"] == json!("late-throw") && has_spread_noniterable_literal(src) {
                                 "behaviour-differs:spread-noniterable-literal-late-throw".to_string()
                             } else {
@@ -269,6 +271,19 @@ pub fn has_missing_proto_method(src: &str) -> bool {
         rest = after;
     }
     false
+}
+
+/// a `super[..]` property access written inside the arguments of a `super(..)` call (same line, before the
+/// `this.p =` that follows the call in generated constructors): always throws, `this` is not initialised yet
+pub fn has_super_key_in_super_call(src: &str) -> bool {
+    src.lines().any(|l| match l.find("super(") {
+        Some(i) => {
+            let args = &l[i + 6..];
+            let args = args.split("); this.p").next().unwrap_or(args);
+            args.contains("super[")
+        }
+        None => false,
+    })
 }
 
 /// `...1`, `...null`, `...true`, `.../re/`: spreading a literal that is not iterable (always throws)
